@@ -8,6 +8,7 @@ import (
 	"strings"
 
 	"github.com/WICG/webpackage/go/zz_verif/rcbor"
+	"github.com/WICG/webpackage/go/zz_verif/rsh"
 )
 
 // Validate is the strict validator for writer output (C04): magic and
@@ -147,6 +148,29 @@ func Validate(b []byte, wantVersion string) error {
 		if wantVersion == "b1" {
 			if len(locs) < 3 || locs[0].Major != 2 || len(locs)%2 != 1 {
 				return fmt.Errorf("b1 index value of %q is not [bstr, (uint, uint)+]", key.Str)
+			}
+			// the number of locations is fixed by the variants-value: one for an empty value, otherwise one per
+			// possible key (the product of the axis sizes) - a value that announces K keys over another number of
+			// locations is an entry no reader of the format can resolve
+			if vv := locs[0].Str; len(vv) == 0 {
+				if len(locs) != 3 {
+					return fmt.Errorf("b1 index value of %q has an empty variants-value and %d locations", key.Str, (len(locs)-1)/2)
+				}
+			} else if ll, err := rsh.ParseListOfLists(string(vv)); err == nil {
+				k := 1
+				for _, inner := range ll {
+					if len(inner) <= 1 {
+						return fmt.Errorf("b1 index value of %q: variants axis without values in %q", key.Str, vv)
+					}
+					if k *= len(inner) - 1; k > 1<<20 {
+						break
+					}
+				}
+				if len(locs) != 2*k+1 {
+					return fmt.Errorf("b1 index value of %q: variants-value %q announces %d possible keys, the entry carries %d locations", key.Str, vv, k, (len(locs)-1)/2)
+				}
+			} else if err != rsh.DontCare {
+				return fmt.Errorf("b1 index value of %q: variants-value %q is not a list of lists: %v", key.Str, vv, err)
 			}
 			locs = locs[1:]
 		} else if len(locs) != 2 {
